@@ -37,6 +37,11 @@ def as_func(stmts) -> ast.FunctionDef:
     return f
 
 
+def ancestors_of(node):
+    from ..core import ancestors
+    return ancestors(node)
+
+
 def path_calls(out) -> list[str]:
     return [call_name(c) or norm(c.func) for c in out.calls
             if isinstance(c, ast.Call)]
@@ -126,8 +131,8 @@ def role_filter(prog, res, K, meth, keep: set) -> None:
             ".get('reaction'", ""):
         res.ok("R-ROLE-TABLE", inst, fi.loc(loop))
     else:
-        res.bad("R-ROLE-TABLE", f"{fi.short}: reaction attr leak",
-                fi.loc(loop), f"{inst}: not found", instance=inst)
+        res.unrecognised("R-ROLE-TABLE", inst, fi.loc(loop),
+                         "handling of the 'reaction' attribute not recognised")
 
 
 def check_bonds(prog: Program, res: Result) -> None:
@@ -179,15 +184,28 @@ def check_bonds(prog: Program, res: Result) -> None:
                 and norm(n.iter) == "ts_graph.bonds"]
     inst = "from_graphs: TS-only bonds -> FLEETING"
     ok = False
+    wrong = None
     for l in ts_loops:
-        t = ast.unparse(l)
-        if "if bond not in crg.bonds" in t and "crg.add_fleeting_bond(*bond)" in t:
-            ok = True
+        for c in ast.walk(l):
+            if isinstance(c, ast.Call) and (call_name(c) or "").endswith(
+                    "add_fleeting_bond"):
+                tests = [norm(a.test) for a in ancestors_of(c)
+                         if isinstance(a, ast.If)]
+                if any(t in ("bond not in crg.bonds", "not crg.has_bond(*bond)",
+                             "bond not in bonds") for t in tests):
+                    ok = True
+                else:
+                    wrong = tests
     if ok:
         res.ok("R-ROLE-TABLE", inst, fi.loc())
+    elif wrong is not None:
+        res.bad("R-ROLE-TABLE", f"from_graphs fleeting under {wrong}",
+                fi.loc(), f"{inst}: add_fleeting_bond is called under "
+                f"{wrong}, not for the bonds that are in neither reactant nor "
+                "product", instance=inst)
     else:
-        res.bad("R-ROLE-TABLE", "from_graphs fleeting", fi.loc(),
-                f"{inst}: pattern not found", instance=inst)
+        res.unrecognised("R-ROLE-TABLE", inst, fi.loc(),
+                         "no add_fleeting_bond over ts_graph.bonds")
     for KK in ("CondensedReactionGraph",):
         role_filter(prog, res, KK, "reactant", {None, "BROKEN"})
         role_filter(prog, res, KK, "product", {None, "FORMED"})
@@ -317,14 +335,25 @@ def check_overlays(prog: Program, res: Result) -> None:
                 rv.loc(), "SCRG.reverse_reaction does not rebuild both the "
                 f"atom and the bond change dictionaries (found {n})")
     t = ast.unparse(rv.node)
+    handled = {kind: (f"_{kind}_stereo_change" in t
+                      and f"set_{kind}_stereo_change(" in t)
+               for kind in ("atom", "bond")}
     for kind in ("atom", "bond"):
         inst = f"SCRG.reverse_reaction re-stores {kind} changes"
-        if f"rev_reac._{kind}_stereo_change.items()" in t and \
-                f"rev_reac.set_{kind}_stereo_change(**" in t:
+        other = "bond" if kind == "atom" else "atom"
+        if handled[kind]:
             res.ok("R-ROLE-TABLE", inst, rv.loc())
+        elif handled[other]:
+            # sibling disagreement: one table is reversed, the other is not
+            res.bad("R-ROLE-TABLE", f"{rv.short}: {kind} changes not reversed",
+                    rv.loc(), f"{inst}: the {other} stereo changes are "
+                    f"re-stored with swapped roles but the {kind} stereo "
+                    "changes are not: reversed reactions keep the forward "
+                    f"{kind} stereo", instance=inst)
         else:
-            res.bad("R-ROLE-TABLE", f"{rv.short}: {kind} changes", rv.loc(),
-                    f"{inst}: not found", instance=inst)
+            res.unrecognised("R-ROLE-TABLE", inst, rv.loc(),
+                             "loop over the change table / setter call not "
+                             "recognised")
 
 
 def check_from_graphs_stereo(prog: Program, res: Result, tier: str) -> None:
